@@ -82,8 +82,15 @@ def compile_expression(
         >>> f = compile_expression(expr, [x, y])
         >>> f(np.array([3.0, 4.0]))  # Returns 25.0
     """
+    from optyx.core.parameters import Parameter
+
     # Create mapping from variable name to array index
     var_indices = {var.name: i for i, var in enumerate(variables)}
+
+    # A bare Parameter compares equal to any other Parameter of the same name,
+    # but its closure reads this particular object: do not share it via the cache.
+    if isinstance(expr, Parameter):
+        return _build_evaluator(expr, var_indices)
 
     # Generate and cache the compiled function
     return _compile_cached(
